@@ -333,7 +333,7 @@ def run_one(name, fam, lines, transport, tcfg, with_model=True):
         f.write("\n".join(inst) + "\n")
     env = dict(os.environ, ASAN_OPTIONS="detect_leaks=0:abort_on_error=0", UBSAN_OPTIONS="print_stacktrace=0")
     try:
-        a = subprocess.run([HARNESS, path], stdout=subprocess.PIPE, stderr=subprocess.PIPE, text=True, timeout=60, env=env)
+        a = subprocess.run([HARNESS, path], stdout=subprocess.PIPE, stderr=subprocess.PIPE, text=True, timeout=75, env=env)
         out, err, rc = a.stdout, a.stderr, a.returncode
     except subprocess.TimeoutExpired as e:
         out = e.stdout.decode() if isinstance(e.stdout, bytes) else (e.stdout or "")
